@@ -42,16 +42,31 @@ RECURSIVE IndexOf(_, _)
 IndexOf(bits, k) == IF k > Len(bits) THEN 0 ELSE bits[k] * Pow2(k - 1) + IndexOf(bits, k + 1)
 
 \* ---- reading an observation ----
+\* Two shapes: complete (depth <= 5: every leaf, every subtree root, every proof) and sparse (depth 20:
+\* the positions touched so far plus probes, the root, and the default-subtree chain zs).
 Broken(o) == "broken" \in DOMAIN o
+Sparse(o) == "sparse" \in DOMAIN o
 IsInt(x) == x >= 0                          \* the recorder writes -1 where a read failed
 Cap(dd) == Pow2(dd)
 ObsLeaf(o, i) == o.leaves[i + 1]
 AllInt(o, dd) == /\ \A i \in 0..(Cap(dd) - 1) : IsInt(ObsLeaf(o, i))
                  /\ \A lev \in 0..dd : \A i \in 1..Pow2(lev) : IsInt(o.nodes[lev + 1][i])
-Adopt(o, dd) ==
-  St([i \in {j \in 0..(Cap(dd) - 1) : ObsLeaf(o, j) # Z} |-> ObsLeaf(o, i)],
-     o.next,
-     (0..(o.next - 1)) \ SeqSet(o.empties))
+\* sparse shape: o.tp = watched positions, o.nz = <<position, value>> of the non-default leaves among
+\* them (ascending), o.unread = number of watched positions whose read failed
+NZPos(o) == {o.nz[k][1] : k \in 1..Len(o.nz)}
+NZVal(o, i) == o.nz[CHOOSE k \in 1..Len(o.nz) : o.nz[k][1] = i][2]
+SparseLeaf(o, i) == IF i \in NZPos(o) THEN NZVal(o, i) ELSE Z
+EmptiesSeen(o) == "empties" \in DOMAIN o
+\* the state the next call starts from: what was observed; flags that cannot be observed (sparse
+\* observation of a tree with a very high mark) are carried over from the specified post-state
+Adopt(o, dd, post) ==
+  IF Sparse(o)
+  THEN St([i \in NZPos(o) |-> NZVal(o, i)],
+          o.next,
+          IF EmptiesSeen(o) THEN (0..(o.next - 1)) \ SeqSet(o.empties) ELSE post.fl)
+  ELSE St([i \in {j \in 0..(Cap(dd) - 1) : ObsLeaf(o, j) # Z} |-> ObsLeaf(o, i)],
+          o.next,
+          IF EmptiesSeen(o) THEN (0..(o.next - 1)) \ SeqSet(o.empties) ELSE post.fl)
 
 \* ---- the specification of one call ----
 SpecStep(dd, s, op) ==
@@ -65,8 +80,7 @@ SpecStep(dd, s, op) ==
 
 \* ---- observables per property ----
 \* C06 / C08: leaves, high-water mark, every subtree root, root
-StateOK(o, dd, s) ==
-  /\ ~Broken(o)
+StateOKSmall(o, dd, s) ==
   /\ AllInt(o, dd)
   /\ o.next = s.next
   /\ o.cap = Cap(dd) /\ o.depth = dd
@@ -77,33 +91,65 @@ StateOK(o, dd, s) ==
   /\ o.root = o.nodes[1][1]
   /\ o.get_oob = "err"
 
+\* the ideal root of a sparse leaf map, through the table of hash facts
+RECURSIVE SNode(_, _, _, _, _)
+SNode(dd, lv, zs, lev, i) ==
+  IF \A k \in DOMAIN lv : k \div Pow2(dd - lev) # i THEN zs[lev + 1]
+  ELSE IF lev = dd THEN lv[i]
+  ELSE H2(SNode(dd, lv, zs, lev + 1, 2 * i), SNode(dd, lv, zs, lev + 1, 2 * i + 1))
+
+StateOKSparse(o, dd, s) ==
+  /\ o.next = s.next
+  /\ o.depth = dd
+  /\ o.unread = 0
+  /\ (IF DOMAIN s.lv \subseteq SeqSet(o.tp) THEN TRUE   \* (IF, not \/: TLC expands a disjunction inside an action)
+      ELSE Assert(FALSE, <<"recorder did not watch a written position", DOMAIN s.lv>>))
+  /\ NZPos(o) = DOMAIN s.lv
+  /\ \A k \in 1..Len(o.nz) : o.nz[k][2] = s.lv[o.nz[k][1]]
+  /\ o.zs[dd + 1] = Z /\ \A lev \in 0..(dd - 1) : o.zs[lev + 1] = H2(o.zs[lev + 2], o.zs[lev + 2])
+  /\ o.root = SNode(dd, s.lv, o.zs, 0, 0)
+
+StateOK(o, dd, s) ==
+  /\ ~Broken(o)
+  /\ IF Sparse(o) THEN StateOKSparse(o, dd, s) ELSE StateOKSmall(o, dd, s)
+
 \* C15: ascending list of the positions below the tree's own mark whose last operation was not a write
 EmptiesOK(o, s) ==
   /\ ~Broken(o)
-  /\ \A k \in 1..(Len(o.empties) - 1) : o.empties[k] < o.empties[k + 1]
-  /\ SeqSet(o.empties) = {i \in 0..(o.next - 1) : i \notin s.fl}
+  /\ "empties_err" \notin DOMAIN o
+  /\ ("empties" \in DOMAIN o =>
+        /\ \A k \in 1..(Len(o.empties) - 1) : o.empties[k] < o.empties[k + 1]
+        /\ SeqSet(o.empties) = {i \in 0..(o.next - 1) : i \notin s.fl})
 
-Same(o1, o2) == o1.next = o2.next /\ o1.empties = o2.empties /\ o1.leaves = o2.leaves
-                /\ o1.nodes = o2.nodes /\ o1.root = o2.root
+Same(o1, o2) ==
+  /\ o1.next = o2.next /\ o1.root = o2.root
+  /\ ("empties" \in DOMAIN o1 /\ "empties" \in DOMAIN o2 => o1.empties = o2.empties)
+  /\ IF Sparse(o1) THEN o1.nz = o2.nz
+     ELSE o1.leaves = o2.leaves /\ o1.nodes = o2.nodes
 
 \* C07: proofs against the tree's OWN observed values
+LeafAt(o, i) == IF Sparse(o) THEN SparseLeaf(o, i) ELSE ObsLeaf(o, i)
 ProofOK(o, dd, p) ==
   LET i == p.i IN
-  /\ p.res = "ok"
+  /\ p.res = "ok"                                   \* "malformed": exported bytes are not vec_fr ++ vec_u8
   /\ p.len = dd /\ Len(p.sib) = dd /\ Len(p.bits) = dd
   /\ \A k \in 1..dd : p.bits[k] \in {0, 1}
-  /\ IndexOf(p.bits, 1) = i /\ p.idx = i
-  /\ \A k \in 1..dd :
-       LET lev == dd - k + 1
-           a == i \div Pow2(dd - lev)
-       IN p.sib[k] = o.nodes[lev + 1][(IF a % 2 = 0 THEN a + 1 ELSE a - 1) + 1]
-  /\ FoldId(ObsLeaf(o, i), p.sib, p.bits, 1) = o.root
-  /\ p.cr = o.root
-  /\ p.ok = "true"
+  /\ IndexOf(p.bits, 1) = i
+  /\ ("idx" \in DOMAIN p => p.idx = i)
+  /\ (~Sparse(o) =>
+        \A k \in 1..dd :
+          LET lev == dd - k + 1
+              a == i \div Pow2(dd - lev)
+          IN p.sib[k] = o.nodes[lev + 1][(IF a % 2 = 0 THEN a + 1 ELSE a - 1) + 1])
+  /\ FoldId(LeafAt(o, i), p.sib, p.bits, 1) = o.root
+  /\ ("cr" \in DOMAIN p => p.cr = o.root)
+  /\ ("ok" \in DOMAIN p => p.ok = "true")
   \* the same proof under another leaf value: accepted iff it really folds to the root (never, for
   \* a collision-free hash); "err" counts as not accepted
-  /\ (p.alt.v = "true") <=> (FoldId(p.alt.leaf, p.sib, p.bits, 1) = o.root)
-  /\ FoldId(p.alt.leaf, p.sib, p.bits, 1) # o.root
+  /\ ("alt" \in DOMAIN p =>
+        /\ (p.alt.v = "true") <=> (FoldId(p.alt.leaf, p.sib, p.bits, 1) = o.root)
+        /\ FoldId(p.alt.leaf, p.sib, p.bits, 1) # o.root)
+  /\ ("altleaf" \in DOMAIN p => FoldId(p.altleaf, p.sib, p.bits, 1) # o.root)
   /\ ("tamper" \in DOMAIN p =>
         \A j \in 1..Len(p.tamper) :
           LET x == p.tamper[j]
@@ -118,10 +164,12 @@ ProofOK(o, dd, p) ==
 
 ProofsOK(o, dd) ==
   /\ ~Broken(o)
-  /\ AllInt(o, dd)
-  /\ Len(o.proofs) = Cap(dd)
-  /\ \A i \in 0..(Cap(dd) - 1) : o.proofs[i + 1].i = i /\ ProofOK(o, dd, o.proofs[i + 1])
-  /\ o.proof_oob = "err"
+  /\ IF Sparse(o)
+     THEN \A k \in 1..Len(o.proofs) : ProofOK(o, dd, o.proofs[k])
+     ELSE /\ AllInt(o, dd)
+          /\ Len(o.proofs) = Cap(dd)
+          /\ \A i \in 0..(Cap(dd) - 1) : o.proofs[i + 1].i = i /\ ProofOK(o, dd, o.proofs[i + 1])
+  /\ ("proof_oob" \in DOMAIN o => o.proof_oob = "err")
 
 \* ---- which calls a property judges ----
 Mutators == {"set", "delete", "append", "range", "override", "init"}
@@ -173,7 +221,7 @@ Advance(e) ==
   /\ d' = (IF e.t = "reset" THEN e.d ELSE d)
   /\ t' = (IF e.t = "reset" THEN Empty
            ELSE IF Broken(e.obs) THEN t
-           ELSE Adopt(e.obs, d))
+           ELSE Adopt(e.obs, d, After(t, Expected(e), e.res)))
   /\ l' = l + 1
 
 Good == More /\ LineOK(Rec[l]) /\ Advance(Rec[l]) /\ UNCHANGED used
@@ -225,18 +273,24 @@ PmOverride(dd, s, op) ==
      ELSE PmUnchanged("none", s)         \* other shapes are delegated to set / delete / set_range: not this finding
 
 PmOverrideMatches(e) ==
-  /\ e.tgt = "pm" /\ e.op.c = "override"
+  /\ e.be = "pm" /\ e.op.c = "override"
   /\ ((Len(e.op.vs) = 0 /\ Len(e.op.rem) >= 2) \/ (Len(e.op.vs) >= 1 /\ Len(e.op.rem) >= 1))
   /\ ~Broken(e.obs)
-  /\ LET x == PmOverride(d, t, e.op) IN
+  /\ LET x == PmOverride(d, t, e.op)
+         o == e.obs
+     IN
        /\ e.res = x.res
        /\ (Prop \in {"C08", "ALL"} =>
-             /\ e.obs.next = x.next
-             /\ \A i \in 0..(Cap(d) - 1) : ObsLeaf(e.obs, i) = (IF i \in DOMAIN x.lv THEN x.lv[i] ELSE Z)
-             /\ \A lev \in 0..(d - 1) : \A i \in 0..(Pow2(lev) - 1) :
-                   e.obs.nodes[lev + 1][i + 1] = H2(e.obs.nodes[lev + 2][2 * i + 1], e.obs.nodes[lev + 2][2 * i + 2]))
-       /\ (Prop \in {"C08", "C15", "ALL"} =>
-             SeqSet(e.obs.empties) = {i \in 0..(e.obs.next - 1) : i \notin x.fl})
+             /\ o.next = x.next
+             /\ (Sparse(o) =>
+                   /\ DOMAIN x.lv \subseteq SeqSet(o.tp) /\ o.unread = 0
+                   /\ NZPos(o) = DOMAIN x.lv /\ \A k \in 1..Len(o.nz) : o.nz[k][2] = x.lv[o.nz[k][1]]
+                   /\ o.root = SNode(d, x.lv, o.zs, 0, 0))
+             /\ (~Sparse(o) => \A i \in 0..(Cap(d) - 1) : ObsLeaf(o, i) = (IF i \in DOMAIN x.lv THEN x.lv[i] ELSE Z))
+             /\ (~Sparse(o) => \A lev \in 0..(d - 1) : \A i \in 0..(Pow2(lev) - 1) :
+                   o.nodes[lev + 1][i + 1] = H2(o.nodes[lev + 2][2 * i + 1], o.nodes[lev + 2][2 * i + 2])))
+       /\ (Prop \in {"C08", "C15", "ALL"} /\ EmptiesSeen(o) =>
+             SeqSet(o.empties) = {i \in 0..(o.next - 1) : i \notin x.fl})
 
 KFPred(name, e) ==
   CASE name = "pm-override-batch" -> PmOverrideMatches(e)
@@ -259,18 +313,23 @@ Why(e) ==
            o == e.obs
        IN (IF e.res \in r.res THEN <<>> ELSE <<"result", e.res, "allowed", r.res>>)
           \o (IF o.next = post.next THEN <<>> ELSE <<"next", o.next, "expected", post.next>>)
-          \o (IF \A i \in 0..(Cap(d) - 1) : ObsLeaf(o, i) = Lf(post, i) THEN <<>>
-              ELSE <<"leaves", o.leaves, "expected", [i \in 1..Cap(d) |-> Lf(post, i - 1)]>>)
-          \o (IF AllInt(o, d) /\ \A lev \in 0..(d - 1) : \A i \in 0..(Pow2(lev) - 1) :
-                   o.nodes[lev + 1][i + 1] = H2(o.nodes[lev + 2][2 * i + 1], o.nodes[lev + 2][2 * i + 2])
-              THEN <<>> ELSE <<"an inner node is not the hash of its children">>)
-          \o (IF SeqSet(o.empties) = {i \in 0..(o.next - 1) : i \notin post.fl} THEN <<>>
+          \o (IF Sparse(o) THEN
+                (IF NZPos(o) = DOMAIN post.lv /\ \A k \in 1..Len(o.nz) : o.nz[k][2] = post.lv[o.nz[k][1]] THEN <<>>
+                 ELSE <<"leaves", o.nz, "expected", post.lv>>)
+              ELSE
+                (IF \A i \in 0..(Cap(d) - 1) : ObsLeaf(o, i) = Lf(post, i) THEN <<>>
+                 ELSE <<"leaves", o.leaves, "expected", [i \in 1..Cap(d) |-> Lf(post, i - 1)]>>)
+                \o (IF AllInt(o, d) /\ \A lev \in 0..(d - 1) : \A i \in 0..(Pow2(lev) - 1) :
+                      o.nodes[lev + 1][i + 1] = H2(o.nodes[lev + 2][2 * i + 1], o.nodes[lev + 2][2 * i + 2])
+                    THEN <<>> ELSE <<"an inner node is not the hash of its children">>))
+          \o (IF ~EmptiesSeen(o) \/ SeqSet(o.empties) = {i \in 0..(o.next - 1) : i \notin post.fl} THEN <<>>
               ELSE <<"empties", o.empties, "expected flags", post.fl>>)
           \o (IF e.res = "err" /\ ~Same(o, PrevObs) THEN <<"rejected call changed the state">> ELSE <<>>)
 
 Deviation ==
   /\ More /\ ~LineOK(Rec[l]) /\ KFMatches(Rec[l]) = {}
-  /\ PrintT(<<"DEV", l, Why(Rec[l])>>)
+  /\ PrintT(<<"DEV", l>>)                       \* one short line per deviation: this is what the driver counts
+  /\ PrintT(<<"WHY", l, Why(Rec[l])>>)
   /\ Advance(Rec[l]) /\ UNCHANGED used
 
 Next == Good \/ Known \/ Deviation
